@@ -63,6 +63,10 @@ type Sched struct {
 	Obs        Observer
 	skip       map[string]bool // hook points that never gate
 	only       map[string]bool // if non-empty: only these points gate
+	adopt      map[string]string // hook point -> name prefix: unknown goroutines reaching it become logical threads
+	detach     map[string]bool   // hook points at which an adopted thread leaves control (reported as Done)
+	nadopt     int
+	adopted    chan string
 }
 
 // New creates a scheduler and installs it as the verifhook handler.
@@ -74,6 +78,9 @@ func New() *Sched {
 		faults:     map[string][]int{},
 		skip:       map[string]bool{},
 		only:       map[string]bool{},
+		adopt:      map[string]string{},
+		detach:     map[string]bool{},
+		adopted:    make(chan string, 1024),
 		Watchdog:   5 * time.Second,
 	}
 	verifhook.Install(s)
@@ -108,6 +115,33 @@ func (s *Sched) OnlyPoints(points ...string) {
 		s.only[p] = true
 	}
 	s.mu.Unlock()
+}
+
+// AdoptAt makes goroutines the harness did not start (goakt's dispatcher workers)
+// logical threads: the first time such a goroutine reaches hook `point` on a
+// controlled object it is registered as "<prefix><n>" (n = 1, 2, ... in arrival
+// order), parks there, and its name is delivered to WaitAdopted.
+func (s *Sched) AdoptAt(point, prefix string) { s.mu.Lock(); s.adopt[point] = prefix; s.mu.Unlock() }
+
+// DetachAt marks a hook point at which a logical thread leaves control: the
+// thread is reported as Done to its stepper and its goroutine continues freely
+// (it may be adopted again later under a new name).
+func (s *Sched) DetachAt(points ...string) {
+	s.mu.Lock()
+	for _, p := range points {
+		s.detach[p] = true
+	}
+	s.mu.Unlock()
+}
+
+// WaitAdopted waits for the next adopted thread and returns its name.
+func (s *Sched) WaitAdopted(d time.Duration) (string, bool) {
+	select {
+	case n := <-s.adopted:
+		return n, true
+	case <-time.After(d):
+		return "", false
+	}
 }
 
 // ScriptFault queues fault decisions returned by verifhook.Fault at point (FIFO).
@@ -322,9 +356,9 @@ func (s *Sched) Yield(point string, a, b int64) {
 		}
 		s.Obs(name, point, nil, a, b)
 	}
-	free := s.free
+	pass := s.free || s.skip[point]
 	s.mu.Unlock()
-	if t == nil || free {
+	if t == nil || pass {
 		return
 	}
 	s.park(t, Pending{Point: point, A: a, B: b})
@@ -339,12 +373,35 @@ func (s *Sched) At(point string, obj any, a, b int64) {
 	}
 	g := gid()
 	t := s.byGid[g]
+	if t == nil && !s.free {
+		if prefix, ok := s.adopt[point]; ok {
+			s.nadopt++
+			t = &thread{name: prefix + strconv.Itoa(s.nadopt), gid: g, resume: make(chan struct{}), parked: make(chan Pending, 1)}
+			t.cur = Pending{Point: point, A: a, B: b, Obj: obj}
+			s.threads[t.name] = t
+			s.byGid[g] = t
+			if s.Obs != nil {
+				s.Obs(t.name, point, obj, a, b)
+			}
+			s.mu.Unlock()
+			s.adopted <- t.name
+			<-t.resume
+			return
+		}
+	}
 	if s.Obs != nil {
 		name := ""
 		if t != nil {
 			name = t.name
 		}
 		s.Obs(name, point, obj, a, b)
+	}
+	if t != nil && s.detach[point] {
+		t.done = true
+		delete(s.byGid, g)
+		s.mu.Unlock()
+		t.parked <- Pending{Done: true, Point: point}
+		return
 	}
 	gate := t != nil && !s.free && !s.skip[point] && (len(s.only) == 0 || s.only[point])
 	s.mu.Unlock()
